@@ -43,10 +43,10 @@ DRIVERS = ['refine', 'diff', 'all_edits', 'edited_cost', 'non_zero', 'possible']
 
 def jobs(tier):
     if tier == 'quick':
-        plan = [('json', 10, 4, 260), ('nested', 0, 0, 40), ('multiset', 8, 0, 30), ('xml', 5, 0, 25), ('plist', 8, 0, 15), ('skewed', 6, 0, 120), ('padded', 0, 0, 60), ('pyobj', 8, 0, 30), ('growing', 0, 0, 300), ('huge', 0, 0, 4), ('pickle', 8, 0, 20)]
+        plan = [('json', 10, 4, 260), ('nested', 0, 0, 40), ('multiset', 8, 0, 30), ('xml', 5, 0, 25), ('plist', 8, 0, 15), ('skewed', 6, 0, 120), ('padded', 0, 0, 60), ('pyobj', 8, 0, 30), ('growing', 0, 0, 300), ('huge', 0, 0, 4), ('pickle', 8, 0, 20), ('mixedlists', 0, 0, 200), ('records', 0, 0, 40)]
     else:
         plan = [('json', 25, 7, 3000), ('nested', 0, 0, 600), ('multiset', 10, 0, 600), ('xml', 8, 0, 500),
-                ('plist', 12, 0, 300), ('skewed', 8, 0, 1200), ('padded', 0, 0, 600), ('pyobj', 12, 0, 600), ('growing', 0, 0, 1500), ('huge', 0, 0, 60), ('pickle', 12, 0, 400)]
+                ('plist', 12, 0, 300), ('skewed', 8, 0, 1200), ('padded', 0, 0, 600), ('pyobj', 12, 0, 600), ('growing', 0, 0, 1500), ('huge', 0, 0, 60), ('pickle', 12, 0, 400), ('mixedlists', 0, 0, 2500), ('records', 0, 0, 600)]
     js = []
     for s in range(16):
         for fam, ml, mw, n in plan:
